@@ -546,6 +546,18 @@ class _Result:
         self.inst.stubs["fetchall"] = lambda: list(self.rows)
 
 
+def _first_then_empty(main: "_Result"):
+    """model connection.execute(): the first statement an entry point executes is its main catalog query; further
+    statements (lookups of named types and the like) find nothing"""
+    calls = []
+
+    def execute(*a, **k):
+        calls.append(1)
+        return main.inst if len(calls) == 1 else _Result().inst
+
+    return execute
+
+
 def _r2_postgresql(ctx, actions):
     W = World(ctx, PG, paramstyle="named", default_schema_name="public", server_version_info=(16, 0))
     L = W.L
@@ -564,8 +576,7 @@ def _r2_postgresql(ctx, actions):
             continue
         rows = [(tm.name, f.get("name") or f"c_{f['cols'][0]}_fkey", _pg_condef(W, f), f.get("rschema") or "public", None)
                 for f in fks]
-        res = _Result(rows=rows)
-        W.conn.stubs["execute"] = lambda *a, **k: res.inst
+        W.conn.stubs["execute"] = _first_then_empty(_Result(rows=rows))
         try:
             got = _guard(ctx, f"postgresql reader {sid}", L.call_method, W.dialect, "get_multi_foreign_keys", W.conn,
                          None, [tm.name], Opaque("scope"), Opaque("kind"))
@@ -805,7 +816,7 @@ def _canonical_type_text(dialect: str, text: str) -> str:
     o = load("catalog_type_names.json")[dialect]
     if o["case"] == "verbatim":
         return text
-    m = re.match(r"^\s*([A-Za-z_][\w ]*?)\s*(\(.*?\))?\s*([A-Za-z_][\w ]*?)?\s*((?:\[\])*)\s*$", text)
+    m = re.match(r"^\s*([A-Za-z_][\w ]*?)\s*(?:(\(.*?\))\s*([A-Za-z_][\w ]*?)?)?\s*((?:\[\])*)\s*$", text)
     if not m:
         return text.lower()
     head, args, tail, arr = m.group(1), m.group(2) or "", m.group(3) or "", m.group(4) or ""
@@ -897,8 +908,7 @@ def _read_type(ctx, W: World, dialect: str, catalog_text: str):
     elif dialect == "postgresql":
         row = _Row(name="x", table_name="c", format_type=catalog_text, default=None, not_null=False, generated="",
                    identity_options=None, comment=None, collation=None)
-        res = _Result(rows=[], mappings=[row.inst])
-        W.conn.stubs["execute"] = lambda *a, **k: res.inst
+        W.conn.stubs["execute"] = _first_then_empty(_Result(rows=[], mappings=[row.inst]))
         got = L.call_method(W.dialect, "get_multi_columns", W.conn, None, ["c"], Opaque("scope"), Opaque("kind"))
         got = dict(list(got))
         cols = got.get((None, "c"))
